@@ -23,7 +23,7 @@ theorem eval0_of (I : FunI F ℝ) (fn fn' : F) (pl pl' : PList ℝ) (x v : ℝ)
 
 theorem evalOwn_spec {τ : Type} (I : FunI F ℝ) (g : ℝ → ℝ) (hd : Det I g J) (s s' : St F τ ℝ) (x v : ℝ)
     (h : evalOwn I s x = .ok (s', v)) (hJ : J s.fn s.core.params) :
-    v = g x ∧ J s'.fn s'.core.params ∧ s'.ext = s.ext ∧ value0 s'.core.params = some x ∧
+    v = g x ∧ J s'.fn s'.core.params ∧ s'.ext = s.ext ∧ (∃ y, value0 s'.core.params = some y ∧ g y = g x) ∧
     s'.core = { s.core with params := s'.core.params } := by
   unfold evalOwn at h
   cases he : eval0 I s.fn s.core.params x with
@@ -271,8 +271,8 @@ theorem gssOptimize_spec (I : FunI F ℝ) (g : ℝ → ℝ) (hd : Det I g J) (fu
       rw [he] at h
       simp only [Except.ok.injEq, Prod.mk.injEq] at h
       obtain ⟨rfl, rfl⟩ := h
-      obtain ⟨hv, hJ2, -, hst, -⟩ := evalOwn_spec I g hd _ _ _ _ he hL.j
-      refine ⟨?_, rfl, _, hv, hst, hJ2⟩
+      obtain ⟨hv, hJ2, -, ⟨y, hst, hgy⟩, -⟩ := evalOwn_spec I g hd _ _ _ _ he hL.j
+      refine ⟨?_, rfl, y, hv.trans hgy.symm, hst, hJ2⟩
       rw [hv]
       by_cases hlt : sL.ext.f1 < sL.ext.f2
       · rw [if_pos ((ScalarReal.ltb_iff _ _).2 hlt), ← hL.f1]
